@@ -146,6 +146,24 @@ structure Attempt where
   neg : Bool
 deriving Inhabited, DecidableEq, Repr
 
+/-- an evaluation counts for the report when the terminal failed outside, or matched inside, an odd number of `!` -/
+def Attempt.counts (a : Attempt) : Bool := a.matched == a.neg
+
+/-- how the terminal is shown: prefixed with `!` under an odd number of `!` -/
+def Attempt.label (a : Attempt) : String := if a.neg then "!" ++ a.want else a.want
+
+/-- one step of the bookkeeping on (farthest position, expected labels - most recent first) -/
+def noteStep (st : Pos × List String) (a : Attempt) : Pos × List String :=
+  if a.counts then
+    if a.pos.off < st.1.off then st
+    else if a.pos.off > st.1.off then (a.pos, [a.label])
+    else (st.1, a.label :: st.2)
+  else st
+
+/-- the bookkeeping over a whole log (most recent evaluation first), started at position `p0` -/
+def book (p0 : Pos) (log : List Attempt) : Pos × List String :=
+  log.foldr (fun a st => noteStep st a) (p0, [])
+
 /-- mirror of `type parser` (mutable part) -/
 structure PState where
   pt : Savepoint
